@@ -12,6 +12,9 @@ from tawazi._dag.constructor import threadsafe_make_dag
 from slice_h import enc, render
 
 
+COUNTS = {}
+
+
 def gen(rng, max_n=7):
     n = rng.randint(1, max_n)
     specs = []
@@ -23,8 +26,10 @@ def gen(rng, max_n=7):
         for k_, j in enumerate(preds):
             indexable = specs[j]["ret"] == "t" and specs[j]["flag"] is None
             uses[str(j)] = dict(idx0=indexable and rng.random() < 0.35, kw=("k%d" % k_) if rng.random() < 0.35 else None)
-        specs.append(dict(preds=preds, uses=uses, flag=flag, usearg=rng.random() < 0.3, const=rng.random() < 0.2,
-                          ret="z" if rng.random() < 0.15 else "t", tag=None))
+        is_setup = (not preds) and flag is None and rng.random() < 0.3
+        specs.append(dict(preds=preds, uses=uses, flag=flag, usearg=(not is_setup) and rng.random() < 0.3,
+                          const=rng.random() < 0.2, ret="t" if is_setup else ("z" if rng.random() < 0.15 else "t"),
+                          tag=None, setup=is_setup))
     if rng.random() < 0.3 and n >= 2:
         a, b = rng.sample(range(n), 2)
         specs[a]["tag"] = specs[b]["tag"] = "shared"
@@ -35,12 +40,15 @@ def gen(rng, max_n=7):
 
 def make_node(i, s):
     def body(*a, **kw):
+        COUNTS[i] = COUNTS.get(i, 0) + 1
         return 0 if s["ret"] == "z" else ("n%d" % i,) + tuple(a) + tuple((k, kw[k]) for k in kw)
 
     body.__name__ = body.__qualname__ = "n%d" % i
     kw = {}
     if s["tag"]:
         kw["tag"] = s["tag"]
+    if s.get("setup"):
+        kw["setup"] = True
     return xn(body, **kw)
 
 
